@@ -4,6 +4,7 @@ import (
 	"fmt"
 	"go/ast"
 	"go/constant"
+	"go/parser"
 	"go/token"
 	"go/types"
 	"sort"
@@ -1070,6 +1071,8 @@ func ruleEARLYRET(c *Ctx) []Obligation {
 			idx   int
 			pos   token.Pos
 			guard map[types.Object]bool // local variables tested by the conditions the return sits under
+			obj   types.Object          // the object returned as the result (nil: none, e.g. `return nil`)
+			other bool                  // a result is returned that is not a plain variable
 		}
 		var rets []ret
 		pm := buildParents(fd.Body)
@@ -1097,14 +1100,27 @@ func ruleEARLYRET(c *Ctx) []Obligation {
 								localsIn(is.Cond, g)
 							}
 						}
-						rets = append(rets, ret{i, nd.Pos(), g})
+						r := ret{idx: i, pos: nd.Pos(), guard: g}
+						if nres >= 2 {
+							switch x := unparen(nd.Results[0]).(type) {
+							case *ast.Ident:
+								if x.Name != "nil" {
+									r.obj = info.ObjectOf(x)
+								} else {
+									r.other = true
+								}
+							default:
+								r.other = true
+							}
+						}
+						rets = append(rets, r)
 					}
 				}
 				return true
 			})
 		}
 		// dependsOn: the stored value is computed from one of the guard variables (through local definitions)
-		dependsOn := func(rhs []ast.Expr, guard map[types.Object]bool) bool {
+		dependsOn := func(rhs []ast.Node, guard map[types.Object]bool) bool {
 			if len(guard) == 0 {
 				return false
 			}
@@ -1144,6 +1160,71 @@ func ruleEARLYRET(c *Ctx) []Obligation {
 		for i, st := range fd.Body.List {
 			as, ok := st.(*ast.AssignStmt)
 			if !ok {
+				// a conditional transfer: `if _, ok := old.X(); ok { new.SetY(…) }` / `if … { obj.F = … }`
+				// or a plain setter call at the top level
+				switch st.(type) {
+				case *ast.IfStmt, *ast.ExprStmt:
+				default:
+					continue
+				}
+				what := ""
+				var owner *types.Named
+				ast.Inspect(st, func(m ast.Node) bool {
+					if what != "" {
+						return false
+					}
+					switch m := m.(type) {
+					case *ast.FuncLit, *ast.ReturnStmt:
+						return false
+					case *ast.CallExpr:
+						if se, ok := unparen(m.Fun).(*ast.SelectorExpr); ok && strings.HasPrefix(se.Sel.Name, "Set") && len(se.Sel.Name) > 3 {
+							if n := namedOf(info.TypeOf(se.X)); n != nil && n.Obj().Pkg() != nil && isIRPkg(n.Obj().Pkg().Path()) {
+								what, owner = typeKey(n)+"."+se.Sel.Name, n
+							}
+						}
+					case *ast.AssignStmt:
+						for _, l := range m.Lhs {
+							if se, ok := unparen(l).(*ast.SelectorExpr); ok {
+								if sel, ok := info.Selections[se]; ok && sel.Kind() == types.FieldVal {
+									if n := namedOf(sel.Recv()); n != nil && n.Obj().Pkg() != nil && isIRPkg(n.Obj().Pkg().Path()) {
+										if _, isID := unparen(se.X).(*ast.Ident); isID {
+											what, owner = typeKey(n)+"."+se.Sel.Name, n
+										}
+									}
+								}
+							}
+						}
+					}
+					return true
+				})
+				if what == "" {
+					continue
+				}
+				// returns inside the statement itself do not skip it
+				hasOwnReturn := false
+				ast.Inspect(st, func(m ast.Node) bool {
+					if _, ok := m.(*ast.ReturnStmt); ok {
+						hasOwnReturn = true
+					}
+					return true
+				})
+				if hasOwnReturn {
+					continue
+				}
+				k := fmt.Sprintf("%s: every success return passes the conditional transfer to %s", funcKey(fn), what)
+				o := Obligation{Key: k, Pos: c.pos(st.Pos()), Verdict: OK, Tags: irTags(owner)}
+				for _, r := range rets {
+					if r.idx < i {
+						if dependsOn([]ast.Node{st}, r.guard) {
+							continue
+						}
+						o.Verdict = VIOL
+						o.Pos = c.pos(r.pos)
+						o.Detail = fmt.Sprintf("a success return at %s leaves the translator before the transfer to %s at %s: on that path what the source says there (e.g. `distinct`) is dropped", c.pos(r.pos), what, c.pos(st.Pos()))
+						break
+					}
+				}
+				obs = append(obs, o)
 				continue
 			}
 			for _, l := range as.Lhs {
@@ -1164,9 +1245,14 @@ func ruleEARLYRET(c *Ctx) []Obligation {
 				}
 				k := fmt.Sprintf("%s: every success return passes the store to %s.%s", funcKey(fn), typeKey(owner), se.Sel.Name)
 				o := Obligation{Key: k, Pos: c.pos(as.Pos()), Verdict: OK, Tags: irTags(owner)}
+				rootObj := info.ObjectOf(unparen(se.X).(*ast.Ident))
 				for _, r := range rets {
 					if r.idx < i {
-						if dependsOn(as.Rhs, r.guard) {
+						if r.other || (r.obj != nil && r.obj != rootObj) {
+							// the early return hands back another object than the one this store fills
+							continue
+						}
+						if dependsOn(exprNodes(as.Rhs), r.guard) {
 							// the guard found empty exactly what this store is computed from
 							// (`if len(xs) == 0 { return … }` before `obj.F = make(…, len(xs))`)
 							continue
@@ -1270,4 +1356,857 @@ func ruleNATWIDTH(c *Ctx) []Obligation {
 	})
 	obs = append(obs, o)
 	return obs
+}
+
+// ---------------------------------------------------------------------------
+// ENC-CLASS
+
+func init() {
+	register(&Rule{
+		Name:  "ENC-CLASS",
+		Doc:   "the ID-or-name decision of the identifier decoders in package asm is taken on the raw token text, before unquoting (a quoted digit string such as %\"1\" is a name), and SetName stores its argument as a name without classifying it",
+		Floor: 5,
+		Run:   ruleENCCLASS,
+	})
+}
+
+func ruleENCCLASS(c *Ctx) []Obligation {
+	var obs []Obligation
+	isIdentType := func(t types.Type) bool {
+		return isNamed(t, pkgIR, "GlobalIdent") || isNamed(t, pkgIR, "LocalIdent")
+	}
+	isClassifier := func(f *types.Func) bool {
+		if f == nil || f.Pkg() == nil {
+			return false
+		}
+		if f.Pkg().Path() == "strconv" && (strings.HasPrefix(f.Name(), "Parse") || f.Name() == "Atoi") {
+			return true
+		}
+		if f.Pkg().Path() == pkgIR && (f.Name() == "NewLocalIdent" || f.Name() == "NewGlobalIdent") {
+			return true
+		}
+		return false
+	}
+	isUnquoter := func(f *types.Func) bool {
+		if f == nil || f.Pkg() == nil {
+			return false
+		}
+		switch f.Pkg().Path() + "." + f.Name() {
+		case pkgASM + ".unquote", pkgENC + ".Unquote", pkgENC + ".Unescape", pkgASM + ".stringLit", pkgASM + ".stringLitBytes":
+			return true
+		}
+		return false
+	}
+	c.eachFunc(pkgASM, func(p *packages.Package, fd *ast.FuncDecl, fn *types.Func) {
+		sig := fn.Type().(*types.Signature)
+		if sig.Recv() != nil || sig.Params().Len() != 1 || sig.Results().Len() != 1 || !isIdentType(sig.Results().At(0).Type()) {
+			return
+		}
+		n := namedOf(sig.Params().At(0).Type())
+		if n == nil || n.Obj().Pkg() == nil || n.Obj().Pkg().Path() != pkgAST {
+			return
+		}
+		info := p.TypesInfo
+		// definitions of locals with their positions (straight-line decoders: a definition
+		// counts for a use only if it precedes it)
+		type def struct {
+			pos token.Pos
+			rhs ast.Expr
+		}
+		defs := map[types.Object][]def{}
+		ast.Inspect(fd.Body, func(nd ast.Node) bool {
+			if as, ok := nd.(*ast.AssignStmt); ok && len(as.Lhs) == len(as.Rhs) {
+				for i, l := range as.Lhs {
+					if id, ok := l.(*ast.Ident); ok {
+						if obj := info.ObjectOf(id); obj != nil {
+							defs[obj] = append(defs[obj], def{as.Pos(), as.Rhs[i]})
+						}
+					}
+				}
+			}
+			return true
+		})
+		var unquoted func(e ast.Expr, at token.Pos, depth int) bool
+		unquoted = func(e ast.Expr, at token.Pos, depth int) bool {
+			found := false
+			ast.Inspect(e, func(m ast.Node) bool {
+				switch m := m.(type) {
+				case *ast.CallExpr:
+					if isUnquoter(calleeOf(info, m)) {
+						found = true
+					}
+				case *ast.Ident:
+					if depth < 4 {
+						// the latest definition before the use
+						var last *def
+						for i := range defs[info.ObjectOf(m)] {
+							d := &defs[info.ObjectOf(m)][i]
+							if d.pos < at && (last == nil || d.pos > last.pos) {
+								last = d
+							}
+						}
+						if last != nil && unquoted(last.rhs, last.pos, depth+1) {
+							found = true
+						}
+					}
+				}
+				return !found
+			})
+			return found
+		}
+		o := Obligation{Key: funcKey(fn) + " classifies the raw token text", Pos: c.pos(fd.Pos()), Verdict: VIOL,
+			Detail: "the decoder never decides between an unnamed ID and a name (no strconv parse, no identifier constructor on the token text)"}
+		ast.Inspect(fd.Body, func(nd ast.Node) bool {
+			call, ok := nd.(*ast.CallExpr)
+			if !ok || len(call.Args) == 0 || !isClassifier(calleeOf(info, call)) {
+				return true
+			}
+			if unquoted(call.Args[0], call.Pos(), 0) {
+				o.Verdict, o.Pos = VIOL, c.pos(call.Pos())
+				o.Detail = fmt.Sprintf("the ID-or-name decision (%s) is taken on unquoted text: the quoted digit string %%\"1\" — a name — is decoded as the unnamed ID %%1, so a use of the name binds to another value (and the definition is renumbered)", exprString(call.Fun))
+				return false
+			}
+			if o.Verdict == VIOL && strings.HasPrefix(o.Detail, "the decoder never") {
+				o.Verdict, o.Pos, o.Detail = OK, c.pos(call.Pos()), "decided by "+exprString(call.Fun)+" on the raw text; unquoting happens afterwards"
+			}
+			return true
+		})
+		obs = append(obs, o)
+	})
+	// SetName stores a name
+	for _, tname := range []string{"LocalIdent", "GlobalIdent"} {
+		fn := c.lookupFunc(pkgIR, tname+".SetName")
+		fd := c.funcDecl(fn)
+		o := Obligation{Key: "ir." + tname + ".SetName stores its argument as a name", Verdict: OK, Detail: "no ID-or-name classification of the argument"}
+		if fd == nil {
+			o.Verdict, o.Detail = UNDECIDED, "method not found"
+			obs = append(obs, o)
+			continue
+		}
+		o.Pos = c.pos(fd.Pos())
+		info := c.pkg(pkgIR).TypesInfo
+		ast.Inspect(fd.Body, func(nd ast.Node) bool {
+			if call, ok := nd.(*ast.CallExpr); ok && isClassifier(calleeOf(info, call)) {
+				o.Verdict, o.Pos = VIOL, c.pos(call.Pos())
+				o.Detail = fmt.Sprintf("SetName classifies its argument with %s: a name consisting of digits, set through the API, becomes an unnamed ID and is printed as %%7 instead of %%\"7\"", exprString(call.Fun))
+			}
+			return true
+		})
+		obs = append(obs, o)
+	}
+	return obs
+}
+
+// ---------------------------------------------------------------------------
+// GEP-RES
+
+func init() {
+	register(&Rule{
+		Name:  "GEP-RES",
+		Doc:   "in the shared walk gep.ResultType every index — the first included — is examined for a vector length before anything can skip it (LangRef: a vector of pointers is returned when one or more arguments is a vector), and the result pointer type receives the source's address space unconditionally, before it is returned or wrapped in a vector",
+		Floor: 2,
+		Run:   ruleGEPRES,
+	})
+}
+
+func ruleGEPRES(c *Ctx) []Obligation {
+	fn := c.lookupFunc(pkgGEP, "ResultType")
+	fd := c.funcDecl(fn)
+	if fd == nil {
+		return []Obligation{{Key: "gep.ResultType", Verdict: UNDECIDED, Detail: "function not found", Tags: []string{"gep"}}}
+	}
+	info := c.pkg(pkgGEP).TypesInfo
+	var obs []Obligation
+	// (1) the loop over the indices
+	o1 := Obligation{Key: "gep.ResultType examines every index for a vector length", Pos: c.pos(fd.Pos()), Verdict: UNDECIDED, Detail: "no range over the index list found", Tags: []string{"gep"}}
+	sig := fn.Type().(*types.Signature)
+	var idxParam types.Object
+	for i := 0; i < sig.Params().Len(); i++ {
+		if _, ok := sig.Params().At(i).Type().(*types.Slice); ok {
+			idxParam = sig.Params().At(i)
+		}
+	}
+	containsContinue := func(st ast.Stmt) bool {
+		found := false
+		ast.Inspect(st, func(m ast.Node) bool {
+			switch m := m.(type) {
+			case *ast.ForStmt, *ast.RangeStmt, *ast.FuncLit:
+				return false
+			case *ast.BranchStmt:
+				if m.Tok == token.CONTINUE || m.Tok == token.BREAK {
+					found = true
+				}
+			}
+			return true
+		})
+		return found
+	}
+	readsVectorLen := func(st ast.Stmt) bool {
+		found := false
+		ast.Inspect(st, func(m ast.Node) bool {
+			if se, ok := m.(*ast.SelectorExpr); ok && se.Sel.Name == "VectorLen" {
+				if sel, ok := info.Selections[se]; ok && isNamed(sel.Recv(), pkgGEP, "Index") {
+					found = true
+				}
+			}
+			return true
+		})
+		return found
+	}
+	ast.Inspect(fd.Body, func(nd ast.Node) bool {
+		rs, ok := nd.(*ast.RangeStmt)
+		if !ok {
+			return true
+		}
+		if id, ok := unparen(rs.X).(*ast.Ident); !ok || info.ObjectOf(id) != idxParam {
+			return true
+		}
+		o1.Pos = c.pos(rs.Pos())
+		o1.Verdict, o1.Detail = VIOL, "the loop over the indices never reads Index.VectorLen: a vector index does not make the result a vector of pointers"
+		skipped := token.NoPos
+		for _, st := range rs.Body.List {
+			if readsVectorLen(st) {
+				if skipped != token.NoPos {
+					o1.Pos = c.pos(skipped)
+					o1.Detail = fmt.Sprintf("a continue/break at %s can leave the iteration before the index's vector length is examined (at %s): an index skipped there — the first index steps through the pointer but still decides whether the result is a vector of pointers — is ignored, and `getelementptr T, T* %%p, <4 x i64> %%v` is typed T* instead of <4 x T*>", c.pos(skipped), c.pos(st.Pos()))
+				} else {
+					o1.Verdict, o1.Detail = OK, "the vector-length test is the first thing done for every index"
+				}
+				break
+			}
+			if containsContinue(st) && skipped == token.NoPos {
+				skipped = st.Pos()
+			}
+		}
+		return false
+	})
+	obs = append(obs, o1)
+	// (2) the result pointer's address space
+	o2 := Obligation{Key: "gep.ResultType gives the result pointer the source's address space on every path", Pos: c.pos(fd.Pos()), Verdict: UNDECIDED, Detail: "no result pointer construction found", Tags: []string{"gep"}}
+	pm := buildParents(fd.Body)
+	ast.Inspect(fd.Body, func(nd ast.Node) bool {
+		as, ok := nd.(*ast.AssignStmt)
+		if !ok || len(as.Lhs) != 1 || len(as.Rhs) != 1 {
+			return true
+		}
+		id, ok := as.Lhs[0].(*ast.Ident)
+		if !ok || !isNamed(info.TypeOf(as.Rhs[0]), pkgTYP, "PointerType") {
+			return true
+		}
+		ptr := info.ObjectOf(id)
+		o2.Pos = c.pos(as.Pos())
+		// composite literal with the field set
+		if ue, ok := unparen(as.Rhs[0]).(*ast.UnaryExpr); ok {
+			if cl, ok := ue.X.(*ast.CompositeLit); ok {
+				for _, el := range cl.Elts {
+					if kv, ok := el.(*ast.KeyValueExpr); ok && exprString(kv.Key) == "AddrSpace" {
+						o2.Verdict, o2.Detail = OK, "set in the literal"
+						return false
+					}
+				}
+			}
+		}
+		var list []ast.Stmt
+		switch p := pm[as].(type) {
+		case *ast.BlockStmt:
+			list = p.List
+		case *ast.CaseClause:
+			list = p.Body
+		}
+		o2.Verdict, o2.Detail = VIOL, "the result pointer type is built without the source's address space: a gep on an addrspace(K) pointer yields a default-address-space pointer"
+		after := false
+		for _, st := range list {
+			if st == ast.Stmt(as) {
+				after = true
+				continue
+			}
+			if !after {
+				continue
+			}
+			uses := false
+			ast.Inspect(st, func(m ast.Node) bool {
+				if u, ok := m.(*ast.Ident); ok && info.ObjectOf(u) == ptr {
+					uses = true
+				}
+				return true
+			})
+			if !uses {
+				continue
+			}
+			// the first statement that mentions the pointer must be the unconditional store
+			if s2, ok := st.(*ast.AssignStmt); ok && len(s2.Lhs) == 1 {
+				if se, ok := unparen(s2.Lhs[0]).(*ast.SelectorExpr); ok && se.Sel.Name == "AddrSpace" {
+					if r, ok := unparen(se.X).(*ast.Ident); ok && info.ObjectOf(r) == ptr {
+						o2.Verdict, o2.Detail = OK, "ptr.AddrSpace = "+exprString(s2.Rhs[0])+" directly after construction, before any use"
+						break
+					}
+				}
+			}
+			o2.Pos = c.pos(st.Pos())
+			o2.Detail = "the result pointer is used (returned, or wrapped in a vector) on a path on which its address space has not been set: the vector-of-pointers result of a gep on an addrspace(K) base comes out in address space 0"
+			break
+		}
+		return false
+	})
+	obs = append(obs, o2)
+	return obs
+}
+
+// ---------------------------------------------------------------------------
+// NO-UNSAFE
+
+func init() {
+	register(&Rule{
+		Name:  "NO-UNSAFE",
+		Doc:   "no non-test file of llir/llvm uses package unsafe or the reflect slice/string headers: strings and slices held by a module are ordinary Go values, never views of memory the caller still owns (ParseBytes copies its input)",
+		Floor: 8,
+		Run:   ruleNOUNSAFE,
+	})
+}
+
+// usesUnsafe reports the first use of package unsafe (or reflect.SliceHeader /
+// reflect.StringHeader) in a file.
+func usesUnsafe(f *ast.File) (token.Pos, string) {
+	for _, im := range f.Imports {
+		if im.Path.Value == `"unsafe"` {
+			return im.Pos(), `import "unsafe"`
+		}
+	}
+	var pos token.Pos
+	what := ""
+	ast.Inspect(f, func(n ast.Node) bool {
+		if se, ok := n.(*ast.SelectorExpr); ok && pos == token.NoPos {
+			if id, ok := se.X.(*ast.Ident); ok && id.Name == "reflect" && (se.Sel.Name == "SliceHeader" || se.Sel.Name == "StringHeader") {
+				pos, what = se.Pos(), "reflect."+se.Sel.Name
+			}
+		}
+		return true
+	})
+	return pos, what
+}
+
+func ruleNOUNSAFE(c *Ctx) []Obligation {
+	var obs []Obligation
+	// the matcher is exercised on a positive example on every run (the expected count on the tree is zero)
+	const positive = "package p\nimport \"unsafe\"\nfunc f(b []byte) string { return *(*string)(unsafe.Pointer(&b)) }\n"
+	if pf, err := parser.ParseFile(token.NewFileSet(), "positive.go", positive, 0); err != nil {
+		return []Obligation{{Key: "matcher self-test", Verdict: UNDECIDED, Detail: "positive example does not parse: " + err.Error()}}
+	} else if p, _ := usesUnsafe(pf); p == token.NoPos {
+		return []Obligation{{Key: "matcher self-test", Verdict: UNDECIDED, Detail: "the matcher does not recognise the positive example"}}
+	}
+	for _, p := range c.llvmPkgs() {
+		o := Obligation{Key: "package " + shortPkg(p.PkgPath) + " does not use unsafe", Verdict: OK, Detail: fmt.Sprintf("%d files", len(p.Syntax))}
+		for _, f := range p.Syntax {
+			if pos, what := usesUnsafe(f); pos != token.NoPos {
+				o.Verdict, o.Pos = VIOL, c.pos(pos)
+				o.Detail = what + ": memory is reinterpreted behind the type system — a string made from the caller's byte slice without copying changes when the caller reuses its buffer, so a parsed module (whose names are substrings of the input) depends on what the caller does afterwards"
+				break
+			}
+		}
+		obs = append(obs, o)
+	}
+	return obs
+}
+
+// ---------------------------------------------------------------------------
+// ENUM-HAND, MD-OMIT, CTOR-CHK, ELLIPSIS, LIT-CTOR
+
+func init() {
+	register(&Rule{
+		Name:  "ENUM-HAND",
+		Doc:   "every hand-written keyword table outside the generated ones (a `case \"kw\": return enum.X` switch, or a map literal from keyword to enum constant, in asm, ir, ir/metadata) agrees with the generated String table: kw is the keyword of X; likewise a table from bit sizes to the predeclared integer types agrees with their declared BitSize",
+		Floor: 1,
+		Run:   ruleENUMHAND,
+	})
+	register(&Rule{
+		Name:  "MD-OMIT",
+		Doc:   "a debug-info printer omits a `key: value` field only when the field has the zero value the translator leaves for an absent field: the guard of every printed field is (a disjunction containing) the zero test of that field — never a comparison with a non-zero default or a narrowing conjunction",
+		Floor: 150,
+		Run:   ruleMDOMIT,
+	})
+	register(&Rule{
+		Name:  "CTOR-CHK",
+		Doc:   "a constructor's panicking type check compares the types the operands have (Type.Equal on the operand's type and the slot's type), not a type synthesised for the comparison, which drops qualifiers such as the address space",
+		Floor: 2,
+		Run:   ruleCTORCHK,
+	})
+	register(&Rule{
+		Name:  "ELLIPSIS",
+		Doc:   "every printer of a parameter list writes `...` whenever the function type is variadic: the ellipsis is written unconditionally inside an `if <sig>.Variadic` whose condition is the Variadic flag alone",
+		Floor: 2,
+		Run:   ruleELLIPSIS,
+	})
+	register(&Rule{
+		Name:  "LIT-CTOR",
+		Doc:   "in package asm integer and floating-point constants are constructed only by the literal readers (constant.NewIntFromString / NewFloatFromString on the token text, constant.NewBool on a boolean token): no translator re-derives a constant's value after it has been read",
+		Floor: 3,
+		Run:   ruleLITCTOR,
+	})
+}
+
+func ruleENUMHAND(c *Ctx) []Obligation {
+	var obs []Obligation
+	byType := map[*types.TypeName]*enumTables{}
+	for _, et := range c.enumTypes() {
+		byType[et.T.Obj()] = et
+	}
+	checked := 0
+	// predeclared integer types of ir/types: variable → bit size, read off the initialisers
+	predeclBits := map[types.Object]int64{}
+	if tp := c.pkg(pkgTYP); tp != nil {
+		for _, f := range tp.Syntax {
+			ast.Inspect(f, func(n ast.Node) bool {
+				vs, ok := n.(*ast.ValueSpec)
+				if !ok {
+					return true
+				}
+				for i, nm := range vs.Names {
+					if i >= len(vs.Values) {
+						continue
+					}
+					ue, ok := unparen(vs.Values[i]).(*ast.UnaryExpr)
+					if !ok {
+						continue
+					}
+					cl, ok := ue.X.(*ast.CompositeLit)
+					if !ok || !isNamed(tp.TypesInfo.TypeOf(cl), pkgTYP, "IntType") {
+						continue
+					}
+					for _, el := range cl.Elts {
+						if kv, ok := el.(*ast.KeyValueExpr); ok && exprString(kv.Key) == "BitSize" {
+							if tv := tp.TypesInfo.Types[kv.Value]; tv.Value != nil {
+								if b, ok := constant.Int64Val(constant.ToInt(tv.Value)); ok {
+									predeclBits[tp.TypesInfo.Defs[nm]] = b
+								}
+							}
+						}
+					}
+				}
+				return true
+			})
+		}
+	}
+	check := func(p *packages.Package, fn *types.Func, kwExpr, valExpr ast.Expr) {
+		info := p.TypesInfo
+		tv := info.Types[kwExpr]
+		if tv.Value != nil && tv.Value.Kind() == constant.Int {
+			// size → predeclared integer type
+			var obj types.Object
+			switch x := unparen(valExpr).(type) {
+			case *ast.Ident:
+				obj = info.Uses[x]
+			case *ast.SelectorExpr:
+				obj = info.Uses[x.Sel]
+			}
+			if bits, ok := predeclBits[obj]; ok {
+				size, _ := constant.Int64Val(tv.Value)
+				checked++
+				o := Obligation{Key: fmt.Sprintf("%s: bit size %d → types.%s", funcKey(fn), size, obj.Name()), Pos: c.pos(kwExpr.Pos()), Verdict: OK, Detail: "agrees with the declaration", Tags: []string{"types"}}
+				if bits != size {
+					o.Verdict = VIOL
+					o.Detail = fmt.Sprintf("the table maps the bit size %d to types.%s, which is declared with BitSize %d: every i%d of the source becomes an i%d", size, obj.Name(), bits, size, bits)
+				}
+				obs = append(obs, o)
+			}
+			return
+		}
+		if tv.Value == nil || tv.Value.Kind() != constant.String {
+			return
+		}
+		var k *types.Const
+		switch x := unparen(valExpr).(type) {
+		case *ast.Ident:
+			k, _ = info.Uses[x].(*types.Const)
+		case *ast.SelectorExpr:
+			k, _ = info.Uses[x.Sel].(*types.Const)
+		}
+		if k == nil {
+			return
+		}
+		n := namedOf(k.Type())
+		if n == nil {
+			return
+		}
+		et := byType[n.Obj()]
+		if et == nil {
+			return
+		}
+		kw := constant.StringVal(tv.Value)
+		val, _ := constant.Int64Val(constant.ToInt(k.Val()))
+		checked++
+		o := Obligation{Key: fmt.Sprintf("%s: %q → %s", funcKey(fn), kw, k.Name()), Pos: c.pos(kwExpr.Pos()), Verdict: OK, Tags: enumTags(et)}
+		if want, ok := et.S[val]; !ok || want != kw {
+			o.Verdict = VIOL
+			o.Detail = fmt.Sprintf("the hand-written table maps the keyword %q to %s, whose keyword in the generated String table is %q: the keyword is read as another value than the one that prints it", kw, k.Name(), want)
+		} else {
+			o.Detail = "agrees with the generated table"
+		}
+		obs = append(obs, o)
+	}
+	for _, path := range []string{pkgASM, pkgIR, pkgMD, pkgCONS, pkgTYP} {
+		c.eachFunc(path, func(p *packages.Package, fd *ast.FuncDecl, fn *types.Func) {
+			ast.Inspect(fd.Body, func(nd ast.Node) bool {
+				switch nd := nd.(type) {
+				case *ast.CaseClause:
+					if len(nd.Body) == 0 {
+						return true
+					}
+					r, ok := nd.Body[len(nd.Body)-1].(*ast.ReturnStmt)
+					if !ok || len(r.Results) == 0 {
+						return true
+					}
+					for _, e := range nd.List {
+						check(p, fn, e, r.Results[0])
+					}
+				case *ast.CompositeLit:
+					if _, ok := p.TypesInfo.TypeOf(nd).Underlying().(*types.Map); ok {
+						for _, el := range nd.Elts {
+							if kv, ok := el.(*ast.KeyValueExpr); ok {
+								check(p, fn, kv.Key, kv.Value)
+							}
+						}
+					}
+				}
+				return true
+			})
+		})
+	}
+	obs = append(obs, Obligation{Key: "hand-written keyword tables scanned", Verdict: OK, Detail: fmt.Sprintf("%d table entries outside the generated tables", checked)})
+	obs = append(obs, Obligation{Key: "hand-written bit-size tables scanned", Verdict: OK, Detail: fmt.Sprintf("%d predeclared integer types known", len(predeclBits)), Tags: []string{"types"}})
+	return obs
+}
+
+// zeroTestOf: the field name F when cond is a pure zero test of recv.F
+// (F != 0 / nil / "" with a zero constant, len(F) > 0, or the boolean F itself).
+func zeroTestOf(info *types.Info, cond ast.Expr) (string, bool) {
+	fieldOf := func(e ast.Expr) (string, bool) {
+		se, ok := unparen(e).(*ast.SelectorExpr)
+		if !ok {
+			return "", false
+		}
+		if sel, ok := info.Selections[se]; ok && sel.Kind() == types.FieldVal {
+			return se.Sel.Name, true
+		}
+		return "", false
+	}
+	switch x := unparen(cond).(type) {
+	case *ast.SelectorExpr:
+		if b, ok := info.TypeOf(x).Underlying().(*types.Basic); ok && b.Kind() == types.Bool {
+			return fieldOf(x)
+		}
+	case *ast.BinaryExpr:
+		isZero := func(e ast.Expr) bool {
+			if id, ok := unparen(e).(*ast.Ident); ok && id.Name == "nil" {
+				return true
+			}
+			tv := info.Types[e]
+			if tv.Value == nil {
+				return false
+			}
+			switch tv.Value.Kind() {
+			case constant.Int, constant.Float:
+				return constant.Sign(tv.Value) == 0
+			case constant.String:
+				return constant.StringVal(tv.Value) == ""
+			case constant.Bool:
+				return !constant.BoolVal(tv.Value)
+			}
+			return false
+		}
+		if x.Op == token.NEQ {
+			if f, ok := fieldOf(x.X); ok && isZero(x.Y) {
+				return f, true
+			}
+			if f, ok := fieldOf(x.Y); ok && isZero(x.X) {
+				return f, true
+			}
+		}
+		if x.Op == token.GTR && isZero(x.Y) {
+			if call, ok := unparen(x.X).(*ast.CallExpr); ok && exprString(call.Fun) == "len" && len(call.Args) == 1 {
+				return fieldOf(call.Args[0])
+			}
+		}
+	}
+	return "", false
+}
+
+func ruleMDOMIT(c *Ctx) []Obligation {
+	var obs []Obligation
+	p := c.pkg(pkgMD)
+	info := p.TypesInfo
+	c.eachFunc(pkgMD, func(_ *packages.Package, fd *ast.FuncDecl, fn *types.Func) {
+		if fn.Name() != "LLString" || fd.Recv == nil {
+			return
+		}
+		n := 0
+		for _, st := range fd.Body.List {
+			is, ok := st.(*ast.IfStmt)
+			if !ok || is.Else != nil {
+				continue
+			}
+			// the body emits one `key: …` field
+			key := ""
+			ast.Inspect(is.Body, func(m ast.Node) bool {
+				if lit, ok := m.(*ast.BasicLit); ok && lit.Kind == token.STRING && key == "" {
+					if tv := info.Types[lit]; tv.Value != nil {
+						s := constant.StringVal(tv.Value)
+						if i := strings.Index(s, ": "); i > 0 && !strings.ContainsAny(s[:i], " %") {
+							key = s[:i]
+						}
+					}
+				}
+				return true
+			})
+			if key == "" {
+				continue
+			}
+			// fields of the receiver read in the body
+			printed := map[string]bool{}
+			tags := []string{"md"}
+			ast.Inspect(is.Body, func(m ast.Node) bool {
+				if se, ok := m.(*ast.SelectorExpr); ok {
+					if sel, ok := info.Selections[se]; ok && sel.Kind() == types.FieldVal {
+						printed[se.Sel.Name] = true
+						if n := namedOf(sel.Type()); n != nil && n.Obj().Pkg() != nil && n.Obj().Pkg().Path() == pkgENUM && len(tags) == 1 {
+							tags = append(tags, "enum")
+						}
+					}
+				}
+				return true
+			})
+			n++
+			o := Obligation{Key: fmt.Sprintf("%s omits %q only when the field is zero", funcKey(fn), key), Pos: c.pos(is.Pos()), Verdict: VIOL, Tags: tags}
+			// disjuncts of the guard
+			var disj []ast.Expr
+			var split func(e ast.Expr)
+			split = func(e ast.Expr) {
+				if be, ok := unparen(e).(*ast.BinaryExpr); ok && be.Op == token.LOR {
+					split(be.X)
+					split(be.Y)
+					return
+				}
+				disj = append(disj, e)
+			}
+			split(is.Cond)
+			for _, d := range disj {
+				if f, ok := zeroTestOf(info, d); ok && (printed[f] || len(printed) == 0) {
+					o.Verdict, o.Detail = OK, "printed whenever "+f+" is not its zero value"
+				}
+			}
+			if o.Verdict == VIOL {
+				o.Detail = fmt.Sprintf("the field is printed only under `%s`, which is not (implied by) the zero test of the printed field: a value for which the guard is false is omitted from the text, and the translator, which leaves an absent field at its zero value, reads back another value than the one printed", exprString(is.Cond))
+			}
+			obs = append(obs, o)
+		}
+	})
+	return obs
+}
+
+func ruleCTORCHK(c *Ctx) []Obligation {
+	var obs []Obligation
+	for _, path := range []string{pkgIR, pkgCONS} {
+		c.eachFunc(path, func(p *packages.Package, fd *ast.FuncDecl, fn *types.Func) {
+			if !strings.HasPrefix(fn.Name(), "New") || fd.Recv != nil {
+				return
+			}
+			info := p.TypesInfo
+			defs := collectDefs(info, fd.Body)
+			n := 0
+			ast.Inspect(fd.Body, func(nd ast.Node) bool {
+				is, ok := nd.(*ast.IfStmt)
+				if !ok || !endsInPanic(is.Body.List) {
+					return true
+				}
+				var eq *ast.CallExpr
+				ast.Inspect(is.Cond, func(m ast.Node) bool {
+					if call, ok := m.(*ast.CallExpr); ok {
+						if se, ok := unparen(call.Fun).(*ast.SelectorExpr); ok && se.Sel.Name == "Equal" && len(call.Args) == 1 {
+							eq = call
+						}
+					}
+					return true
+				})
+				if is.Init != nil {
+					if as, ok := is.Init.(*ast.AssignStmt); ok {
+						for i, l := range as.Lhs {
+							if id, ok := l.(*ast.Ident); ok && i < len(as.Rhs) {
+								defs[info.ObjectOf(id)] = append(defs[info.ObjectOf(id)], as.Rhs[i])
+							}
+						}
+					}
+				}
+				if eq == nil {
+					return true
+				}
+				n++
+				o := Obligation{Key: fmt.Sprintf("%s type check #%d compares the operands' own types", funcKey(fn), n), Pos: c.pos(is.Pos()), Verdict: OK, Detail: exprString(eq)}
+				synth := func(e ast.Expr) string {
+					var look func(e ast.Expr, depth int) string
+					look = func(e ast.Expr, depth int) string {
+						e = unparen(e)
+						switch x := e.(type) {
+						case *ast.CallExpr:
+							if f := calleeOf(info, x); f != nil && f.Pkg() != nil && f.Pkg().Path() == pkgTYP && strings.HasPrefix(f.Name(), "New") {
+								return exprString(x)
+							}
+						case *ast.UnaryExpr:
+							if _, ok := x.X.(*ast.CompositeLit); ok && x.Op == token.AND {
+								return exprString(x)
+							}
+						case *ast.Ident:
+							if depth < 3 {
+								for _, d := range defs[info.ObjectOf(x)] {
+									if s := look(d, depth+1); s != "" {
+										return s
+									}
+								}
+							}
+						}
+						return ""
+					}
+					return look(e, 0)
+				}
+				recv := unparen(eq.Fun).(*ast.SelectorExpr).X
+				for _, side := range []ast.Expr{recv, eq.Args[0]} {
+					if s := synth(side); s != "" {
+						o.Verdict = VIOL
+						o.Detail = fmt.Sprintf("the check compares against %s, a type built for the comparison: the synthesised type has default qualifiers (address space 0, no name), so well-typed operands whose type carries a qualifier — a store through an addrspace(1) pointer — are rejected with a panic", s)
+					}
+				}
+				obs = append(obs, o)
+				return true
+			})
+		})
+	}
+	return obs
+}
+
+func ruleELLIPSIS(c *Ctx) []Obligation {
+	var obs []Obligation
+	for _, path := range []string{pkgIR, pkgTYP, pkgCONS} {
+		c.eachFunc(path, func(p *packages.Package, fd *ast.FuncDecl, fn *types.Func) {
+			info := p.TypesInfo
+			n := 0
+			ast.Inspect(fd.Body, func(nd ast.Node) bool {
+				is, ok := nd.(*ast.IfStmt)
+				if !ok {
+					return true
+				}
+				mentions := false
+				ast.Inspect(is.Cond, func(m ast.Node) bool {
+					if se, ok := m.(*ast.SelectorExpr); ok && se.Sel.Name == "Variadic" {
+						if sel, ok := info.Selections[se]; ok && sel.Kind() == types.FieldVal {
+							mentions = true
+						}
+					}
+					return true
+				})
+				if !mentions {
+					return true
+				}
+				// does this if write an ellipsis at all?
+				writesEllipsis := func(list []ast.Stmt, topOnly bool) bool {
+					found := false
+					for _, st := range list {
+						ast.Inspect(st, func(m ast.Node) bool {
+							if topOnly {
+								if _, nested := m.(*ast.IfStmt); nested {
+									return false
+								}
+							}
+							if lit, ok := m.(*ast.BasicLit); ok && lit.Kind == token.STRING {
+								if tv := info.Types[lit]; tv.Value != nil && strings.Contains(constant.StringVal(tv.Value), "...") {
+									found = true
+								}
+							}
+							return true
+						})
+					}
+					return found
+				}
+				if !writesEllipsis(is.Body.List, false) {
+					return true
+				}
+				n++
+				o := Obligation{Key: fmt.Sprintf("%s writes `...` whenever the signature is variadic #%d", funcKey(fn), n), Pos: c.pos(is.Pos()), Verdict: OK, Detail: "if <sig>.Variadic { …; write(\"...\") }"}
+				se, pure := unparen(is.Cond).(*ast.SelectorExpr)
+				switch {
+				case !pure || se.Sel.Name != "Variadic":
+					o.Verdict = VIOL
+					o.Detail = fmt.Sprintf("the ellipsis is written under `%s`, not under the Variadic flag alone: a variadic function without fixed parameters, `declare void @f(...)`, is printed as `@f()`, which declares another type than its call sites use", exprString(is.Cond))
+				case !writesEllipsis(is.Body.List, true):
+					o.Verdict, o.Detail = VIOL, "inside `if …Variadic` the ellipsis is written only under a further condition"
+				}
+				obs = append(obs, o)
+				return true
+			})
+		})
+	}
+	return obs
+}
+
+func ruleLITCTOR(c *Ctx) []Obligation {
+	var obs []Obligation
+	c.eachFunc(pkgASM, func(p *packages.Package, fd *ast.FuncDecl, fn *types.Func) {
+		info := p.TypesInfo
+		sig := fn.Type().(*types.Signature)
+		takes := func(name string) bool {
+			for i := 0; i < sig.Params().Len(); i++ {
+				if isNamed(sig.Params().At(i).Type(), pkgAST, name) {
+					return true
+				}
+			}
+			return false
+		}
+		n := 0
+		ast.Inspect(fd.Body, func(nd ast.Node) bool {
+			var what string
+			var pos token.Pos
+			switch x := nd.(type) {
+			case *ast.CallExpr:
+				f := calleeOf(info, x)
+				if f == nil || f.Pkg() == nil || f.Pkg().Path() != pkgCONS {
+					return true
+				}
+				rs := f.Type().(*types.Signature).Results()
+				if rs.Len() == 0 || !(isNamed(rs.At(0).Type(), pkgCONS, "Int") || isNamed(rs.At(0).Type(), pkgCONS, "Float")) {
+					return true
+				}
+				what, pos = "constant."+f.Name(), x.Pos()
+				ok := false
+				switch f.Name() {
+				case "NewIntFromString":
+					ok = takes("IntConst")
+				case "NewFloatFromString":
+					ok = takes("FloatConst")
+				case "NewBool":
+					ok = takes("BoolConst")
+				}
+				n++
+				o := Obligation{Key: fmt.Sprintf("%s constructs a literal constant with %s #%d", funcKey(fn), what, n), Pos: c.pos(pos), Verdict: OK, Detail: "the literal reader of its token"}
+				if !ok {
+					o.Verdict = VIOL
+					o.Detail = fmt.Sprintf("%s is called outside the reader of the corresponding literal token: the constant's value is derived a second time from an already-read constant (or from something other than the token text), so e.g. `i1 -1` can come back as `false`", what)
+				}
+				obs = append(obs, o)
+			case *ast.CompositeLit:
+				t := info.TypeOf(x)
+				if isNamed(t, pkgCONS, "Int") || isNamed(t, pkgCONS, "Float") {
+					n++
+					obs = append(obs, Obligation{Key: fmt.Sprintf("%s constructs a literal constant with a composite literal #%d", funcKey(fn), n), Pos: c.pos(x.Pos()), Verdict: VIOL,
+						Detail: "an integer / floating-point constant is built field by field in the translator instead of by the literal reader"})
+				}
+			}
+			return true
+		})
+	})
+	return obs
+}
+
+func exprNodes(es []ast.Expr) []ast.Node {
+	out := make([]ast.Node, len(es))
+	for i, e := range es {
+		out[i] = e
+	}
+	return out
 }
